@@ -79,8 +79,12 @@ def write_mc(wd, name, extends, consts, cfg_lines, extra_defs=""):
 TLC_JAR = "/opt/veriftools/tla/tla2tools.jar:/opt/veriftools/tla/CommunityModules-deps.jar"
 
 
+TSCALE = 1
+
+
 def run_tlc(wd, name, args=(), workers=None, timeout=600, env=None, heap=None):
     """Run TLC on <name>.tla in wd. Returns dict with parsed results."""
+    timeout *= TSCALE
     workers = workers or min(NCPU, 16)
     meta = os.path.join(wd, "meta-" + name)
     cmd = ["java", "-XX:+UseParallelGC"]
@@ -299,6 +303,7 @@ def build_driver(wd, tags="verif"):
 
 def run_driver(driver, module, cases, wd, tag="run", shards=None, timeout=900, env=None):
     """Run cases (list of dicts) through the Go driver, sharded over processes."""
+    timeout *= TSCALE
     if not cases:
         return []
     shards = shards or min(NCPU, max(1, len(cases) // 4), 16)
